@@ -13,13 +13,14 @@ from atsim.potentials.config._common import ConfigurationException
 from atsim.potentials.tools.potable import _query_actions
 
 BASE = collections.OrderedDict([
+  ("Variables", collections.OrderedDict([("myvar", "1.5")])),
   ("Tabulation", collections.OrderedDict([("target", "LAMMPS"), ("cutoff", "6.0")])),
   ("Pair", collections.OrderedDict([("A-B", "as.buck 1.0 2.0 3.0"), ("B-B", "as.zero")])),
   ("Potential-Form", collections.OrderedDict([("f(r,A)", "A*r")])),
 ])
-SECTIONS = ["Tabulation", "Pair", "Potential-Form", "Extra"]
+SECTIONS = ["Tabulation", "Pair", "Potential-Form", "Extra", "Variables"]
 # spellings of existing and of absent keys (embedded whitespace must not matter)
-KEYS = ["A-B", "A - B", " A-B", "A-\tB", "B-B", "C-C", "target", "tar get", "nr", "f(r,A)", "f(r, A)", "g(r)"]
+KEYS = ["A-B", "A - B", " A-B", "A-\tB", "B-B", "C-C", "target", "tar get", "nr", "f(r,A)", "f(r, A)", "g(r)", "myvar", "other var"]
 VALUES = ["as.zero", "v2"]
 
 TARGETS = {n: "_config_parser.ConfigParser._init_config_parser / _RawConfigParser / _ConfigParserDict" for n in
@@ -71,6 +72,16 @@ def hand_edit(overrides, additional, base=BASE):
   return d
 
 
+def snapshot_raw(raw):
+  """every item of the edited file: the sections and, when it has entries, [Variables] (the parser's default section)"""
+  out = collections.OrderedDict()
+  if raw.defaults():
+    out["Variables"] = collections.OrderedDict((norm(k), v) for k, v in raw.defaults().items())
+  for s in raw.sections():
+    out[s] = collections.OrderedDict((norm(k), raw[s][k]) for k in raw[s])
+  return out
+
+
 def observed(overrides, additional, base=BASE):
   try:
     cp = make_parser([ConfigParserOverrideTuple(*o) for o in overrides], [ConfigParserOverrideTuple(*o) for o in additional], base)
@@ -80,11 +91,7 @@ def observed(overrides, additional, base=BASE):
     return "override-missing"
   except (ConfigurationException, ValueError):
     return "malformed"
-  raw = cp.raw_config_parser
-  out = collections.OrderedDict()
-  for s in raw.sections():
-    out[s] = collections.OrderedDict((norm(k), raw[s][k]) for k in raw[s])
-  return out
+  return snapshot_raw(cp.raw_config_parser)
 
 
 def same(a, b):
@@ -95,7 +102,7 @@ def same(a, b):
 
 def one_override(sec: int, key: int, val: int, remove: bool) -> bool:
   """
-  pre: 0 <= sec < 4 and 0 <= key < 12 and 0 <= val < 2
+  pre: 0 <= sec < 5 and 0 <= key < 14 and 0 <= val < 2
   post: _
   """
   ov = [(concrete(SECTIONS[sec]), concrete(KEYS[key]), None if remove else concrete(VALUES[val]))]
@@ -105,7 +112,7 @@ def one_override(sec: int, key: int, val: int, remove: bool) -> bool:
 
 def one_addition(sec: int, key: int, val: int) -> bool:
   """
-  pre: 0 <= sec < 4 and 0 <= key < 12 and 0 <= val < 2
+  pre: 0 <= sec < 5 and 0 <= key < 14 and 0 <= val < 2
   post: _
   """
   ad = [(concrete(SECTIONS[sec]), concrete(KEYS[key]), concrete(VALUES[val]))]
@@ -126,7 +133,7 @@ def two_overrides_pair(k1: int, r1: bool, k2: int, r2: bool) -> bool:
 
 def override_then_add(k1: int, r1: bool, sec2: int, k2: int) -> bool:
   """
-  pre: 0 <= k1 < 6 and 0 <= sec2 < 4 and 0 <= k2 < 12
+  pre: 0 <= k1 < 6 and 0 <= sec2 < 5 and 0 <= k2 < 14
   post: _
   """
   # an item removed by an override may be added again; additions see the overridden file
@@ -168,8 +175,7 @@ def cli_observed(overrides, removes, adds):
     return "add-duplicate"
   except _cpm.ConfigOverrideException:
     return "override-missing"
-  raw = cp.raw_config_parser
-  return collections.OrderedDict((s, collections.OrderedDict((norm(k), raw[s][k]) for k in raw[s])) for s in raw.sections())
+  return snapshot_raw(cp.raw_config_parser)
 
 
 def cli_model(overrides, removes, adds):
@@ -222,6 +228,7 @@ def cli_order_remove(k1: int, k2: int, k3: int) -> bool:
 
 
 EAM_BASE = collections.OrderedDict([
+  ("Variables", collections.OrderedDict([("myvar", "1.5")])),
   ("Tabulation", collections.OrderedDict([("target", "setfl")])),
   ("EAM-Embed", collections.OrderedDict([("A", "as.zero"), ("B", "as.zero")])),
   ("EAM-Density", collections.OrderedDict([("A", "as.zero"), ("B", "as.zero")])),
@@ -243,8 +250,7 @@ def _cli_sections(s1, k1, s2, k2, remove2, base=EAM_BASE):
   try:
     try:
       cp = potable._make_config_parser(_Stub(), overrides, None, removes, None, False)
-      raw = cp.raw_config_parser
-      got = collections.OrderedDict((s_, collections.OrderedDict((norm(k), raw[s_][k]) for k in raw[s_])) for s_ in raw.sections())
+      got = snapshot_raw(cp.raw_config_parser)
     except _cpm.ConfigOverrideException:
       got = "override-missing"
   finally:
@@ -295,8 +301,7 @@ def cli_table_form(which: int, remove: bool) -> bool:
         cp = potable._make_config_parser(_Stub(), None, None, [["Table-Form:tab:%s" % key]], None, False)
       else:
         cp = potable._make_config_parser(_Stub(), [["Table-Form:tab:%s=9 8 7" % key]], None, None, None, False)
-      raw = cp.raw_config_parser
-      got = collections.OrderedDict((s_, collections.OrderedDict((norm(k), raw[s_][k]) for k in raw[s_])) for s_ in raw.sections())
+      got = snapshot_raw(cp.raw_config_parser)
     except _cpm.ConfigOverrideException:
       got = "override-missing"
   finally:
@@ -360,8 +365,7 @@ def _real(overrides, additional):
     return "override-missing"
   except (ConfigurationException, ValueError):
     return "malformed"
-  raw = cp.raw_config_parser
-  return collections.OrderedDict((s, collections.OrderedDict((norm(k), raw[s][k]) for k in raw[s])) for s in raw.sections())
+  return snapshot_raw(cp.raw_config_parser)
 
 
 def _show(x):
@@ -385,8 +389,7 @@ def _rp_cli(k1, k2, k3, use_remove, two_groups):
   from atsim.potentials.tools import potable
   try:
     cp = potable._make_config_parser(io.StringIO(base_text()), overrides, None, removes, None, False)
-    raw = cp.raw_config_parser
-    got = collections.OrderedDict((s, collections.OrderedDict((norm(k), raw[s][k]) for k in raw[s])) for s in raw.sections())
+    got = snapshot_raw(cp.raw_config_parser)
   except _cpm.ConfigOverrideDuplicateException:
     got = "add-duplicate"
   except _cpm.ConfigOverrideException:
